@@ -95,6 +95,14 @@ pub enum N {
         id: u32,
         sig: u8,
     },
+    /// an orphan: a subshell starts an asynchronous job and exits without
+    /// waiting; the job finishes later (simulated time) with nobody to reap it:
+    /// `( { nap K; echo W >orph_ID; } & ); nap K+5; cat orph_ID`
+    Orphan {
+        id: u32,
+        nap: u32,
+        word: String,
+    },
     /// `kill -s USR1 $$`: a signal for which the main shell has a trap with an
     /// invisible action (`trap : USR1`). Only generated in programs without
     /// asynchronous jobs, so that the sender is always a foreground child (or
@@ -155,6 +163,16 @@ impl Gen<'_> {
                 18..=24 => {
                     let n = *self.rng.pick(&[0u8, 0, 1, 2, 3, 7, 42, 126, 127, 255]);
                     out.push(N::Rc(n));
+                    out.push(N::Qm);
+                }
+                30 if allow_bg && depth == 0 => {
+                    self.next_id += 1;
+                    let word = self.word();
+                    out.push(N::Orphan {
+                        id: self.next_id,
+                        nap: self.rng.range(1, 10),
+                        word,
+                    });
                     out.push(N::Qm);
                 }
                 25..=27 if !self.outer_jobs.is_empty() => {
@@ -526,6 +544,10 @@ fn render(n: &N, out: &mut String, _sep: &str) {
         )),
         N::Call(f) => out.push_str(&format!("f{f}")),
         N::Kp => out.push_str("kill -s USR1 $$"),
+        N::Orphan { id, nap, word } => out.push_str(&format!(
+            "( {{ nap {nap}; echo {word} >orph_{id}; }} & ); nap {}; cat orph_{id}",
+            nap + 5
+        )),
     }
 }
 
@@ -727,6 +749,10 @@ fn eval(n: &N, cx: &mut Ctx) {
             eval_block(&body, cx);
         }
         N::Nap(_) | N::Kp => cx.status = 0,
+        N::Orphan { word, .. } => {
+            cx.out.push(word.clone());
+            cx.status = 0;
+        }
         N::SelfKill { kind, sig, word } => {
             match kind {
                 0 => {
@@ -1109,8 +1135,14 @@ pub fn check_run_opt(c: &Case, exp: &Expect, obs: &Observed, truth: bool) -> Opt
             allowed.insert(p);
         }
     }
+    // (a process whose parent terminated before it has nobody to reap it)
+    let exit_seq = |pid: i32| exits.get(&(pid as i64)).map(|(seq, _)| *seq);
     for p in &o.procs {
-        if truth && p.unreaped && !allowed.contains(&p.pid) {
+        let orphaned = match (exit_seq(p.ppid), exit_seq(p.pid)) {
+            (Some(parent), Some(own)) => parent < own,
+            _ => false,
+        };
+        if truth && p.unreaped && !allowed.contains(&p.pid) && !orphaned {
             return Some((
                 "zombie".into(),
                 "zombie".into(),
